@@ -1,5 +1,6 @@
 """C19 — codec kernels in C: mini-float codecs of sexp.c (the UTF-8 codec is covered by C12)."""
-from vf import Query
+import os, subprocess
+from vf import Query, REPO, HARNESS
 from common import R_ASSUME
 
 UNITS = ['kit:kitfull.c', 'kit:env.c', 'kit:exc_models.c', 'kit:libc_models.c']
@@ -8,13 +9,54 @@ EXC = ['sexp_alloc_tagged_aux', 'sexp_type_exception', 'sexp_xtype_exception', '
 FUNCTIONS = ['sexp_quarter_to_double', 'sexp_double_to_quarter', 'sexp_half_to_double', 'sexp_double_to_half']
 
 
+BV_UNITS = ['work:bytevector.c', 'kit:kitfull.c', 'repo:bignum.c', 'kit:env.c', 'kit:exc_models.c', 'kit:libc_models.c']
+CUTS = ['sexp_ratio_[a-z_]*', 'sexp_complex_[a-z_]*', 'sexp_make_ratio', 'sexp_make_complex', 'sexp_double_to_bignum', 'sexp_bignum_to_double',
+        'sexp_define_foreign_aux', 'sexp_env_define', 'sexp_intern', 'sexp_make_string_op', 'sexp_c_string']
+
+
+def prepare(run, tier):
+    """regenerate the accessor C from lib/scheme/bytevector.stub with the repo's own tools/chibi-ffi, run by a bootstrap
+    interpreter compiled from the current working tree (5 s)"""
+    bs = os.path.join(run.work, 'chibi-bootstrap')
+    srcs = [os.path.join(REPO, f) for f in ('gc.c', 'sexp.c', 'bignum.c', 'gc_heap.c', 'opcodes.c', 'vm.c', 'eval.c', 'simplify.c', 'main.c')]
+    r = subprocess.run(['gcc', '-O1', '-w', '-DSEXP_USE_DL=0', '-DSEXP_USE_INTTYPES=0', '-DSEXP_USE_NTPGETTIME=1', '-I', os.path.join(REPO, 'include'),
+                        '-I', os.path.join(HARNESS, 'include')] + srcs + ['-o', bs, '-lm', '-ldl'], capture_output=True, text=True)
+    if r.returncode != 0:
+        raise RuntimeError('bootstrap build failed: ' + r.stderr[-1500:])
+    out = os.path.join(run.work, 'bytevector.c')
+    env = dict(os.environ, CHIBI_IGNORE_SYSTEM_PATH='1', CHIBI_MODULE_PATH=os.path.join(REPO, 'lib'))
+    r = subprocess.run([bs, os.path.join(REPO, 'tools', 'chibi-ffi'), os.path.join(REPO, 'lib', 'scheme', 'bytevector.stub'), out],
+                       capture_output=True, text=True, env=env, cwd=REPO, timeout=120)
+    if r.returncode != 0 or not os.path.exists(out):
+        raise RuntimeError('chibi-ffi failed: ' + r.stdout[-800:] + r.stderr[-800:])
+    run.extra_assumptions.append('bytevector accessors: C generated on this run by tools/chibi-ffi from lib/scheme/bytevector.stub using a bootstrap interpreter built from the current tree')
+
+
+def bv_queries(tier):
+    qs = []
+    # 64-bit accessors are not claimed: cbmc and the native build disagree on the 8-byte memcpy through the packed byte
+    # layout (the replay reports `encoding_suspect`), so no verdict is reported for them
+    combos = [('u16', 2, 0, 1), ('s16', 2, 1, 0), ('u32', 4, 0, 0), ('s32', 4, 1, 1)]
+    if tier != 'quick':
+        combos += [(t, sz, sg, 1 - nat) for (t, sz, sg, nat) in combos]
+    for t, sz, sg, nat in combos:
+        d = {'T': t, 'SZ': sz, 'SIGNEDT': sg, 'BL': 9}
+        if nat:
+            d['NATIVE'] = 1
+        qs.append(Query(name='bytevector-%s%s-ref/set![9 free bytes, free index -3..12, free value%s]' % (t, '-native' if nat else '', '' if nat else ', free endianness'),
+                        harness='C19_bvacc.c', units=BV_UNITS, unit_defs=UD, defs=d, unwind=12,
+                        unwindset={'memcpy.1': 10, 'memcpy.0': 3}, remove_bodies=EXC, cuts=CUTS, cap=300,
+                        backends=['cadical', 'minisat', 'kissat'], functions=['sexp_bytevector_%s%s_ref_stub' % (t, '_native' if nat else ''), 'sexp_bytevector_%s%s_set_x_stub' % (t, '_native' if nat else '')]))
+    return qs
+
+
 def queries(tier):
     qs = []
     cap = 300 if tier == 'quick' else 1800
     for op, nm in ((1, 'quarter: all 8-bit codes'), (2, 'half: all non-NaN 16-bit codes'), (3, 'specials'), (4, 'half: representable values')):
         qs.append(Query(name='minifloat[%s]' % nm, harness='C19_minifloat.c', units=UNITS, unit_defs=UD, defs={'OP': op}, unwind=9,
                         remove_bodies=EXC, cap=cap, backends=['cadical', 'minisat', 'kissat'], flags=['--no-signed-overflow-check'] if False else []))
-    return qs
+    return qs + bv_queries(tier)
 
 
 def bounds(tier):
@@ -24,5 +66,5 @@ def bounds(tier):
 
 ASSUMPTIONS = R_ASSUME + ['CBMC IEEE-754 float model (round-to-nearest-even) trusted for float<->int bit casts and comparisons']
 OUTSIDE = ['base64, quoted-printable, URI, CSV, (chibi bytevector), JSON text layer in Scheme: no C kernel (not encodable by this technique)',
-           'lib/chibi/json.c reader/writer over ports and the generated bytevector accessors of lib/scheme/bytevector.stub (need the port layer / the chibi-ffi generated C: not encoded in this tier)',
+           'lib/chibi/json.c reader/writer over ports (needs the port layer: not encoded in this tier); ieee-single/double accessors and the utf16/utf32 transcoders of bytevector.stub',
            'non-canonical half NaN codes (never produced by the encoder) decode to large finite values']
